@@ -38,7 +38,8 @@ SPtx(s, e) ==
     [] e.bad -> [s EXCEPT !.badid = TRUE]
     [] OTHER -> s
 
-SCbk(s, e) == IF e.total # s.size THEN SBad(s, IF s.api = "push" THEN "C07.CallbackSum" ELSE "C08.CallbackSum")
+\* totalOk: the total handed to the callback is the source size (push) resp. the size the device's STAT reported (pull) - compared by the projection (32-bit values)
+SCbk(s, e) == IF ~e.totalOk THEN SBad(s, IF s.api = "push" THEN "C07.CallbackSum" ELSE "C08.CallbackSum")
               ELSE [s EXCEPT !.cbsum = @ + e.n, !.cbn = @ + 1]
 
 SRet(s, e) ==
